@@ -57,6 +57,13 @@ def run(ck, pid="C02"):
     n = 260 if thorough else 70
     dist = {"ops": {}, "files": {}, "histories": 0, "lines": 0}
     fails = []
+    # fixed witnesses of the defects whose triggers nodedb keeps out of the random histories while they are listed
+    for key, wl in sorted(nodedb.WITNESSES.items()):
+        r = nodedb.run_three(wl, ck.work, "wit", exe)
+        f = {be: nodedb.refinement_failure(r[be]) for be in ("adf", "hdf5")}
+        ck.cov["traces_validated_against_impl"] += 2
+        if f["adf"] or f["hdf5"]:
+            ck.finding(key, {"script": wl, "failure": {k: v for k, v in f.items() if v}, "oracle": "TreeDB (ideal node database), extracted from Coq"})
     for i in range(n):
         files, nops, big, wide = profile(i)
         if thorough and i % 10 == 9:
